@@ -13,10 +13,13 @@ var errNonBinaryWebsocketMessage = errors.New("invalid websocket message: not bi
 
 type goatOverWebsocket struct {
 	conn *websocket.Conn
+
+	// writeTurn serialises writers; waiting for it honours the writer's context.
+	writeTurn chan struct{}
 }
 
 func NewGoatOverWebsocket(ws *websocket.Conn) RpcReadWriter {
-	return &goatOverWebsocket{ws}
+	return &goatOverWebsocket{conn: ws, writeTurn: make(chan struct{}, 1)}
 }
 
 func (ws *goatOverWebsocket) Read(ctx context.Context) (*goatorepo.Rpc, error) {
@@ -45,5 +48,29 @@ func (ws *goatOverWebsocket) Write(ctx context.Context, pkt *goatorepo.Rpc) erro
 		return err
 	}
 
-	return ws.conn.Write(ctx, websocket.MessageBinary, data)
+	select {
+	case ws.writeTurn <- struct{}{}:
+	case <-ctx.Done():
+		return ctx.Err()
+	}
+
+	// The context is not handed to the websocket library: it closes the whole
+	// connection when the context of a write in progress ends - even one that
+	// ends just after the frame was flushed, such as a stream's own context,
+	// cancelled when the reply to that very frame completes the stream. That
+	// takes every other call on the connection down too. A frame cannot be
+	// abandoned half-written either, so the write is left to finish on its
+	// own and only the caller is released when its context ends.
+	done := make(chan error, 1)
+	go func() {
+		done <- ws.conn.Write(context.Background(), websocket.MessageBinary, data)
+		<-ws.writeTurn
+	}()
+
+	select {
+	case err := <-done:
+		return err
+	case <-ctx.Done():
+		return ctx.Err()
+	}
 }
